@@ -65,6 +65,18 @@ def execute(scenarios, work, jobs, tag='main', module=None, max_events=40000):
     byrun = {}
     for v in verdicts:
         byrun[v['run']] = v
+    # what each writer call returned, per run (compared with what the TLC behaviour predicted)
+    cur = None
+    for ln in open(tp):
+        if ln.startswith('{"') and '"e":"begin"' in ln[:400]:
+            cur = json.loads(ln)['run']
+        elif '"e":"w"' in ln and cur in byrun:
+            try:
+                e = json.loads(ln)
+            except Exception:
+                continue
+            if e.get('e') == 'w' and not e['op'].get('implicit') and e['op'].get('op') not in ('reply', 'perror'):
+                byrun[cur].setdefault('wres', []).append(e['res'])
     # the one judgement TLA+ cannot make: decimal text <-> binary float (exact rational arithmetic)
     for v in verdicts:
         for fl in v.get('floats', []):
@@ -157,6 +169,18 @@ def _check_property(a, pid, t0, work, viol_dir):
         raise R.ToolError('duplicate scenario ids in the generated set')
     byrun, states, nevents = execute_all(scenarios, work, a.jobs)
 
+    # spec -> implementation: did every call return what the TLC behaviour predicted?
+    conf = {'compared': 0, 'mismatches': 0}
+    for sc in scenarios:
+        exp = sc.get('meta', {}).get('expect_res')
+        if exp is not None and sc['id'] in byrun:
+            conf['compared'] += 1
+            got = byrun[sc['id']].get('wres', [])
+            if got != exp[:len(got)] or len(got) < len(exp):
+                conf['mismatches'] += 1
+                if conf['mismatches'] <= 5:
+                    R.log('INFO conformance: run %s: model predicted %s, implementation returned %s' % (sc['id'], exp, got))
+    a.conformance = conf
     # collect
     mine = {}     # key -> (scenario id, violation)
     others = {}
@@ -234,6 +258,7 @@ def write_evidence(pid, a, scenarios, byrun, mc_info, s2i, states, nevents, n_vi
         'mc_models': mc_info.get('models', []),
         'trace_events_validated': nevents,
         'tlc_behaviours_replayed': len(s2i),
+        's2i_call_results': getattr(a, 'conformance', {}),
         'monitor_stats': stats,
         'exhaustive': bool(mc_info.get('exhaustive', False)),
         'checker_cmd': 'tlc -workers 1 -config spec/Trace.cfg spec/Trace.tla (per shard) + spec/MC_*.cfg',
